@@ -46,6 +46,7 @@ type Backend struct {
 	requests []*Captured
 	Script   func(c *Captured) []Step // reply script per request (nil: 200 with empty body)
 	release  chan struct{}
+	holds    int // Hold steps arrived at so far (see HoldsEntered)
 	wg       sync.WaitGroup
 	closed   bool
 }
@@ -62,6 +63,15 @@ func NewBackend() (*Backend, error) {
 }
 
 func (b *Backend) Addr() string { return b.L.Addr().String() }
+
+// HoldsEntered is the number of Hold steps connections have arrived at so far. A caller that
+// wants to release one particular Hold waits until the count has gone up (a Release() issued
+// before the connection has arrived at its Hold would be lost on it).
+func (b *Backend) HoldsEntered() int {
+	b.mu.Lock()
+	defer b.mu.Unlock()
+	return b.holds
+}
 
 // Release lets every currently holding connection proceed.
 func (b *Backend) Release() {
@@ -209,6 +219,7 @@ func (b *Backend) serve(conn net.Conn) {
 				b.mu.Lock()
 				rel := b.release
 				closed := b.closed
+				b.holds++ // from here on the next Release() lets this connection go
 				b.mu.Unlock()
 				if !closed {
 					select {
